@@ -94,7 +94,7 @@ _tq = dict(name='mpz_tdiv_qr', props=['C02', 'C04', 'C05', 'C15'], source='mpz/t
            enforce=['__gmpz_tdiv_qr'], replace=['__gmpz_realloc', '__gmpn_tdiv_qr'],
            functions={'__gmpz_tdiv_qr': dict(loops={0: copy_loop(['gk', 'gj']), 1: copy_loop(['gk', 'gj']), 2: copy_loop(['gk', 'gj']), 3: norm_loop('rp', 'dl', 'gk')})},
            assumptions=['mpn_tdiv_qr: ASSUMED shape contract (contracts/div_assumed.h): preconditions nn >= dn >= 1, normal divisor top limb, non-overlap; quotient/remainder areas written; the QUOTIENT VALUE is not specified'],
-           harness=TQ_H % dict(Q=mpz_obj('Q'), R=mpz_obj('R'), N=mpz_obj('N'), D=mpz_obj('D')), timeout=1500, tier='thorough',
+           harness=TQ_H % dict(Q=mpz_obj('Q'), R=mpz_obj('R'), N=mpz_obj('N'), D=mpz_obj('D')), timeout=1500,
            selftest=[])
 _TQ_OPTS = [('nq', '  n = q;'), ('nr', '  n = r;'), ('dq', '  d = q;'), ('dr', '  d = r;'), ('nqdr', '  n = q; d = r;'), ('nd', '  d = n;')]
 for _t, _c in _TQ_OPTS:
@@ -143,7 +143,7 @@ ALIASBLOCK
 _tr = dict(name='mpz_tdiv_r', props=['C02', 'C04', 'C05', 'C15'], source='mpz/tdiv_r.c', contracts=['mpn.h', 'mpz.h', 'div_assumed.h'], contract_text=TR_CONTRACT,
            enforce=['__gmpz_tdiv_r'], replace=['__gmpz_realloc', '__gmpn_tdiv_qr'],
            functions={'__gmpz_tdiv_r': dict(loops={0: copy_loop(['gk', 'gj']), 1: copy_loop(['gk', 'gj']), 2: copy_loop(['gk', 'gj']), 3: norm_loop('rp', 'dl', 'gk')})},
-           assumptions=_tq['assumptions'], harness=TR_H % dict(R=mpz_obj('R'), N=mpz_obj('N'), D=mpz_obj('D')), timeout=1500, tier='thorough', selftest=[])
+           assumptions=_tq['assumptions'], harness=TR_H % dict(R=mpz_obj('R'), N=mpz_obj('N'), D=mpz_obj('D')), timeout=1500, selftest=[])
 for _t, _c in (('d3', ''), ('nr', '  n = r;'), ('dr', '  d = r;'), ('nd', '  d = n;')):
     _v = dict(_tr); _v['name'] = 'mpz_tdiv_r_' + _t
     _v['harness'] = _tr['harness'].replace('ALIASBLOCK', _c).replace('h_mpz_tdiv_r (void)', 'h_mpz_tdiv_r_%s (void)' % _t)
@@ -194,7 +194,7 @@ _tqq = dict(name='mpz_tdiv_q', props=['C02', 'C04', 'C05', 'C15'], source='mpz/t
            enforce=['__gmpz_tdiv_q'], replace=['__gmpz_realloc', '__gmpn_tdiv_q'],
            functions={'__gmpz_tdiv_q': dict(loops={0: copy_loop(['gk', 'gj']), 1: copy_loop(['gk', 'gj'])})},
            assumptions=['mpn_tdiv_q: ASSUMED shape contract (contracts/div_assumed.h): preconditions nn >= dn >= 1, normal divisor top limb, quotient area separate from both operands; the QUOTIENT VALUE is not specified'],
-           harness=TQQ_H % dict(Q=mpz_obj('Q'), N=mpz_obj('N'), D=mpz_obj('D')), timeout=1500, tier='thorough', selftest=[])
+           harness=TQQ_H % dict(Q=mpz_obj('Q'), N=mpz_obj('N'), D=mpz_obj('D')), timeout=1500, selftest=[])
 for _t, _c in (('d3', ''), ('nq', '  n = q;'), ('dq', '  d = q;'), ('nd', '  d = n;')):
     _v = dict(_tqq); _v['name'] = 'mpz_tdiv_q_' + _t
     _v['harness'] = _tqq['harness'].replace('ALIASBLOCK', _c).replace('h_mpz_tdiv_q (void)', 'h_mpz_tdiv_q_%s (void)' % _t)
